@@ -102,8 +102,8 @@ Finalize:
     LOG("[stream %d] SOURCE: Stopping on frame %d",
         (int)self->stream_id,
         (int)iframe);
+    // The filter stops the sink once everything written here has reached it.
     self->sig_stop_filter(self);
-    self->sig_stop_sink(self);
 
     ECHO(camera_stop(self->camera));
 
@@ -122,8 +122,7 @@ video_source_init(struct video_source_s* self,
                   struct channel* to_sink,
                   struct channel* to_filter,
                   void (*await_filter_reset)(const struct video_source_s*),
-                  void (*sig_stop_filter)(const struct video_source_s*),
-                  void (*sig_stop_sink)(const struct video_source_s*))
+                  void (*sig_stop_filter)(const struct video_source_s*))
 {
     *self = (struct video_source_s){
         .max_frame_count = max_frame_count,
@@ -133,7 +132,6 @@ video_source_init(struct video_source_s* self,
         .enable_filter = 0,
         .await_filter_reset = await_filter_reset,
         .sig_stop_filter = sig_stop_filter,
-        .sig_stop_sink = sig_stop_sink,
     };
     thread_init(&self->thread);
     return Device_Ok;
